@@ -269,7 +269,7 @@ var c05Calls = map[string]bool{
 	"stopTransferringFiles": true, "confirmStopTransfer": true, "isTransferringFiles": true,
 	"trimVT100": true, "uploadDragFiles": true, "downloadFiles": true, "uploadFiles": true,
 	"clientError": true, "cleanup": true, "background": true, "connectToTunnel": true, "newTransfer": true,
-	"setOneTimeUploadResult": true, "close": true, "recover": true,
+	"setOneTimeUploadResult": true, "close": true, "recover": true, "Close": true,
 }
 
 type c05Sk struct{ b strings.Builder }
